@@ -13,8 +13,10 @@ Core(L)   == [i \in DOMAIN L |-> <<L[i].id, L[i].o, L[i].m, L[i].a>>]
 Useful(o) == IF o \in {"", " "} THEN "UNKNOWN" ELSE o
 FirstS(L, k) == LET m == {i \in DOMAIN L : L[i].s = k} IN IF m = {} THEN 0 ELSE Min(m)
 New(id, n, a) == <<id, n, 0, a>>
+\* update codes: 0 = leave metadata alone, 1 = unit, 7 = unit+descr+value, 8 = reset all three to empty (falsy) values
+NewMeta(old, m) == IF m = 0 THEN old ELSE IF m = 8 THEN 0 ELSE IF m > old THEN m ELSE old
 \* metadata classes are bit sets (1 = unit, 7 = unit, descr and value): an update adds the fields it names
-Upd(c, a, m)  == <<c[1], c[2], IF m # 0 /\ m > c[3] THEN m ELSE c[3], IF a = 0 THEN c[4] ELSE a>>
+Upd(c, a, m)  == <<c[1], c[2], NewMeta(c[3], m), IF a = 0 THEN c[4] ELSE a>>
 
 \* which call fails, and how (a failing call changes nothing)
 ExpExc(L, e) ==
